@@ -173,7 +173,7 @@ fn run(rep: &Report) {
     let mut letters = sigma2(&env);
     letters.extend(strict_sensitive(&env));
     let a_id = coin_id(&P1, &PH1, 5);
-    rep.set_rule("bundles: spend A=(P1,PH1,5) carrying every ordered pair (quick: every multiset of <=2; thorough: every multiset of <=2 on A plus <=1 on a second spend B-child / C-sibling, and every multiset of 3 over the strict-sensitive + lock letters) of the interaction letters and the strict-sensitive letters; relation (a) on 4 fork flag sets x 7 strictness subsets; relation (b) on all permutations of conditions within spends x all permutations of spends under 4 flag sets; plus the ephemeral child B carrying every multiset of 2 lock / birth / ASSERT_EPHEMERAL letters; plus LIMIT_SPENDS at 5999/6000/6001 spends. distinct = distinct bundles");
+    rep.set_rule("bundles: spend A=(P1,PH1,5) carrying every ordered pair (quick: every multiset of <=2; thorough: every multiset of <=2 on A plus <=1 on a second spend B-child / C-sibling, and every multiset of 3 over the strict-sensitive + lock letters) of the interaction letters and the strict-sensitive letters; relation (a) on 4 fork flag sets x 7 strictness subsets; relation (b) on all permutations of conditions within spends x all permutations of spends under 4 flag sets; plus every multiset of 3 locks inside each after/before family (82+86, 80+84, 83+87, 81+85) on A; plus the ephemeral child B carrying every multiset of 2 lock / birth / ASSERT_EPHEMERAL letters; plus LIMIT_SPENDS at 5999/6000/6001 spends. distinct = distinct bundles");
     rep.assume("both sides of each relation are the real parse_spends; summaries are compared after sorting spends by coin id, sorting signature lists and masking the positionally defined FF flag");
     rep.extra("letters", json!(letters.len()));
     let n = letters.len();
@@ -208,6 +208,19 @@ fn run(rep: &Report) {
         for (x, &i) in lock.iter().enumerate() {
             for &j in lock.iter().skip(x) {
                 bundles.push(Bundle { spends: vec![a(vec![create_b.clone()]), (a_id, PH2, 3, vec![letters[i].1.clone(), letters[j].1.clone()])] });
+            }
+        }
+    }
+    // every multiset of 3 inside each after/before lock family (82+86, 80+84, 83+87, 81+85; six
+    // values each incl. 0, negative, maximal and oversize): the impossible-constraint test and the
+    // max/min folds must not depend on which of two same-kind locks comes first
+    for (after, before) in [(82u8, 86u8), (80, 84), (83, 87), (81, 85)] {
+        let fam: Vec<usize> = (0..n).filter(|i| letters[*i].0 == format!("op{after}") || letters[*i].0 == format!("op{before}")).collect();
+        for (x, &i) in fam.iter().enumerate() {
+            for (y, &j) in fam.iter().enumerate().skip(x) {
+                for &k in fam.iter().skip(y) {
+                    bundles.push(Bundle { spends: vec![a(vec![letters[i].1.clone(), letters[j].1.clone(), letters[k].1.clone()])] });
+                }
             }
         }
     }
